@@ -101,3 +101,12 @@ func dotted(labels [][]byte) []byte {
 	}
 	return out
 }
+
+// Size is the encoded size of the assembly.
+func (a *asm) Size() int {
+	n := 0
+	for _, it := range a.items {
+		n += a.size(it)
+	}
+	return n
+}
